@@ -87,7 +87,7 @@ DeclVisits(S, k, lo, hi) ==
   IN [i \in 1..Len(ps) |-> <<ps[i], Enc(WordAt(S, ps[i], k))>>]
 
 \* the same through a table of window codes (-1 = window contains an invalid letter); Enc is
-\* injective on words of one length, so OccC(WinCodes(S,k), Enc(w)) = Occ(S,k,w) (lemma OccByCodes)
+\* injective on words of one length, so OccC(WinCodes(S,k), Enc(w)) = Occ(S,k,w) (last part of IndexExact)
 WinCodes(S, k) == [p \in 0..(Len(S) - k) |-> IF ValidWin(S, p, k) THEN Enc(WordAt(S, p, k)) ELSE -1]
 OccC(codes, x) == {p \in DOMAIN codes : codes[p] = x}
 DeclVisitsC(codes, k, lo, hi) ==
@@ -259,28 +259,28 @@ VisitNow ==
 
 IndexState == start = 0 /\ pc = "loop"
 
-\* New: the frequency table before Build
-FreqExact ==
+\* For every word x of length k (occ[x] = its declared occurrences in S):
+\*  - New: the frequency table before Build holds the number of occurrences, the extra last entry 0;
+\*  - Build + KmerPositions: the bucket of x is exactly occ[x] in increasing order, so absent words are
+\*    empty; nothing indexes outside finger/pos; Check() confirms every window;
+\*  - lemma used by the trace specification on long sequences: occurrences and windows can be read off
+\*    the table of window codes.
+IndexExact ==
   IndexState =>
-    LET cnt == Count(m.vis, k)
-    IN /\ \A x \in 0..(Pow4(k) - 1) : cnt[x] = Cardinality(Occ(S, k, Dec(x, k)))
+    LET L == Len(S)
+        words == 0..(Pow4(k) - 1)
+        cnt == Count(m.vis, k)
+        b == Place(m.vis, PrefixSums(cnt, Pow4(k)), L - k + 1)
+        codes == WinCodes(S, k)
+    IN /\ \A x \in words :
+            LET occ == AscSeq(Occ(S, k, Dec(x, k)), 0, L - k)      \* the occurrences of x, increasing
+            IN /\ cnt[x] = Len(occ)
+               /\ PositionsOp(b, x) = occ
+               /\ AscSeq(OccC(codes, x), 0, L - k) = occ
        /\ cnt[Pow4(k)] = 0
-
-\* Build + KmerPositions: every word's bucket is exactly its occurrences, ascending; absent words are
-\* empty; Check() confirms every window
-BuildExact ==
-  IndexState =>
-    LET b == Built(m.vis, k, Len(S))
-    IN /\ ~b.panic
-       /\ \A x \in 0..(Pow4(k) - 1) : PositionsOp(b, x) = AscSeq(Occ(S, k, Dec(x, k)), 0, Len(S) - k)
-       /\ CheckOp(m.vis, b) = <<TRUE, Cardinality(Windows(S, k, 0, Len(S)))>>
-
-\* lemma used by the trace specification on long sequences
-OccByCodes ==
-  IndexState =>
-    LET codes == WinCodes(S, k)
-    IN /\ \A x \in 0..(Pow4(k) - 1) : OccC(codes, x) = Occ(S, k, Dec(x, k))
-       /\ \A lo \in 0..Len(S) : DeclVisitsC(codes, k, lo, Len(S)) = DeclVisits(S, k, lo, Len(S))
+       /\ ~b.panic
+       /\ CheckOp(m.vis, b) = <<TRUE, Cardinality(Windows(S, k, 0, L))>>
+       /\ \A lo \in 0..L : DeclVisitsC(codes, k, lo, L) = DeclVisits(S, k, lo, L)
 
 \* encoding, formatting, GC and reverse complement agree with the string operations (per k; evaluated
 \* in the initial states only: they do not depend on the sequence)
